@@ -9,4 +9,4 @@ CONSTANTS
   Tpls <- McTpls
   Only <- McOnly
   Bursts <- McBursts
-INVARIANTS Inv_C11_Serializable Inv_C12_Unique Inv_LocksReleased
+INVARIANTS Inv_C11_Serializable Inv_C12_Unique Inv_LocksReleased Inv_C11_IndexMatchesVoxels
